@@ -36,8 +36,69 @@ func doLZ4Encode(data []byte, level int) ([]byte, error) {
 	return buf, nil
 }
 
+// lz4BlockSize get the size of the decoded data of lz4 block
+// (lz4 block不包含原始数据长度，因此遍历所有sequence计算)
+func lz4BlockSize(buf []byte) (int, error) {
+	size := 0
+	n := len(buf)
+	// 读取长度的扩展字节（255表示还有后续字节）
+	readLength := func(i, value int) (int, int, error) {
+		for {
+			if i >= n {
+				return 0, 0, lz4.ErrInvalidSourceShortBuffer
+			}
+			b := int(buf[i])
+			i++
+			value += b
+			if b != 255 {
+				return i, value, nil
+			}
+		}
+	}
+	var err error
+	for i := 0; i < n; {
+		token := int(buf[i])
+		i++
+		// literals
+		length := token >> 4
+		if length == 15 {
+			i, length, err = readLength(i, length)
+			if err != nil {
+				return 0, err
+			}
+		}
+		i += length
+		size += length
+		if i > n {
+			return 0, lz4.ErrInvalidSourceShortBuffer
+		}
+		// 最后一个sequence只有literals
+		if i == n {
+			break
+		}
+		// match: offset(2 bytes) + length
+		i += 2
+		if i > n {
+			return 0, lz4.ErrInvalidSourceShortBuffer
+		}
+		length = token & 0xf
+		if length == 15 {
+			i, length, err = readLength(i, length)
+			if err != nil {
+				return 0, err
+			}
+		}
+		size += length + 4
+	}
+	return size, nil
+}
+
 func doLZ4Decode(buf []byte) ([]byte, error) {
-	dst := make([]byte, 10*len(buf))
+	size, err := lz4BlockSize(buf)
+	if err != nil {
+		return nil, err
+	}
+	dst := make([]byte, size)
 	n, err := lz4.UncompressBlock(buf, dst)
 	if err != nil {
 		return nil, err
